@@ -249,8 +249,10 @@ def d3(ctx, F):
     for b0, side in ((enc0, "encode"), (dec0, "decode")):
         b = F.inlined(b0, keep=frame_api)
         guards = []
+        from .. import panics as _p
+        dbg = _p.debug_assert_blocks(b)
         for i, bl in enumerate(b.blocks):
-            if bl.get("cleanup") or bl.get("dead"):
+            if bl.get("cleanup") or bl.get("dead") or i in dbg or any("assert" in m for m in bl["term"].get("macros", [])):
                 continue
             sc = flow.switch_condition(b, i)
             if not (sc and sc.get("kind") == "cmp"):
